@@ -1,22 +1,40 @@
 #!/bin/bash
 # own confirmation of round-2 seeded changes in a scratch worktree: args are triples  id:crate:dest
-# (dest = path of the demonstration inside the worktree; the file copied is the seeded_demo*.rs of the seed)
-export CARGO_TARGET_DIR=/tmp/vs2-target
+# (dest = path of the demonstration inside the worktree; the file copied is the seeded_demo*.rs of the seed);
+# optional 4th..6th fields  :modfile:anchor-line:modname  add `#[cfg(test)] mod modname;` after the anchor line of modfile
+export CARGO_TARGET_DIR=/tmp/vs2-target-$$
 S=/verif/seeded
 for spec in "$@"; do
-  ID=${spec%%:*}; rest=${spec#*:}; CRATE=${rest%%:*}; DEST=${rest#*:}
+  IFS=: read -r ID CRATE DEST MODFILE ANCHOR MODNAME <<< "$spec"
   WT=/tmp/vs2-$ID
   git -C /repo worktree add -q $WT HEAD || continue
   cd $WT
   demo=$(ls $S/$ID/*.rs | head -1)
   mkdir -p $(dirname $DEST); cp $demo $DEST
   T=$(basename $DEST .rs)
+  if [ -n "$MODFILE" ]; then
+    python3 - "$MODFILE" "$ANCHOR" "$MODNAME" <<'PY'
+import sys
+f, anchor, name = sys.argv[1:4]
+s = open(f).read()
+assert s.count(anchor + "\n") >= 1, "anchor not found"
+s = s.replace(anchor + "\n", anchor + "\n#[cfg(test)]\nmod " + name + ";\n", 1)
+open(f, "w").write(s)
+PY
+  fi
   echo "== $ID: demo on the unmodified tree"; cargo nextest run -p $CRATE --offline --no-fail-fast -E "test($T)" 2>&1 | grep -E "Summary|error(\[|:)" | head -3
   git apply $S/$ID/patch.diff || echo "PATCH DOES NOT APPLY"
   echo "== $ID: demo with the change"; cargo nextest run -p $CRATE --offline --no-fail-fast -E "test($T)" 2>&1 | grep -E "Summary|error(\[|:)" | head -3
   rm $DEST
+  if [ -n "$MODFILE" ]; then python3 - "$MODFILE" "$MODNAME" <<'PY'
+import sys
+f, name = sys.argv[1:3]
+s = open(f).read().replace("#[cfg(test)]\nmod " + name + ";\n", "")
+open(f, "w").write(s)
+PY
+  fi
   echo "== $ID: existing suite with the change"
   cargo nextest run --workspace --no-fail-fast --offline -E 'not (test(run_all) | test(test_threefold_) | test(seeded_demo))' 2>&1 | grep -E "Summary|FAIL" | head -5
   cd /; git -C /repo worktree remove --force $WT
 done
-rm -rf /tmp/vs2-target
+rm -rf /tmp/vs2-target-$$
